@@ -224,8 +224,10 @@ func (c C09Case) opName() string {
 func faultOffsets(n int) []int {
 	var out []int
 	for k := 0; k < n; k++ {
-		if n > 8000 { // very long inputs: both ends densely, the middle sparsely
-			if k < 200 || k >= n-300 || k%509 == 0 {
+		if n > 8000 { // very long inputs: both ends densely, the middle sparsely, and around every 4 KiB boundary
+			// (counted from the start of the input and of anything that starts within its first 9 bytes: a payload
+			// behind a frame header)
+			if k < 200 || k >= n-300 || k%509 == 0 || k%4096 <= 9 || k%4096 == 4095 {
 				out = append(out, k)
 			}
 			continue
@@ -418,6 +420,9 @@ func genC09(t *rapid.T) C09Case {
 			// id + payload exactly fill k inflate windows (32 KiB): the decompressor has produced everything
 			// before it has seen the end of the compressed stream
 			c.Frame.Len = 32768*rapid.IntRange(1, 2).Draw(t, "windows") - idLen(id) + rapid.SampledFrom([]int{0, 0, 0, -1, 1}).Draw(t, "windowoff")
+		} else if rapid.IntRange(0, 90).Draw(t, "large") == 23 {
+			// payloads beyond 64 KiB: receivers that grow their buffer block-wise have block boundaries inside
+			c.Frame.Len = rapid.SampledFrom([]int{65535, 65536, 65537, 70000, 100000, 131072, 131073, 200000}).Draw(t, "largelen")
 		}
 	case "field":
 		f := genField(t, 1, true)
